@@ -3,6 +3,7 @@
 from __future__ import annotations
 
 import ast
+import re
 
 from ..facts import calls_in
 from ..index import FuncInfo, dotted_of, norm, own_nodes, short
@@ -17,8 +18,11 @@ RULES = {
     "R4": "every operator token the tokenizer can emit is consumed by some parser tier",
     "R5": "operator agreement: each arithmetic dunder of SymbolicDim applies the operator its name denotes with "
     "operands in the right order; each parser operator token builds the matching SymPy form",
+    "R6": "integer bindings are looked up by presence, never by truthiness: a value taken from a `Mapping[str, int]` "
+    "parameter (bindings[...] / bindings.get(...)) is not used as an operand of and/or or as a bare condition - a "
+    "binding of 0 (an empty dimension) is falsy and would be treated as absent",
 }
-FLOORS = {"R1": 6, "R2": 3, "R3": 3, "R4": 6, "R5": 18}
+FLOORS = {"R1": 6, "R2": 3, "R3": 3, "R4": 6, "R5": 18, "R6": 2}
 EXPLANATION = (
     "Derives the printer-side vocabulary from the sympy constructors called in SymbolicDim's methods and the "
     "parser-side grammar (tiers, tokens, associativity, operator→SymPy form) from the recursive-descent parser's "
@@ -394,7 +398,53 @@ def rule_r5(ctx):
         ctx.check("R5", "parser '**' → Pow", bool(pows), fpow, fpow.node, "'**' does not build a power", nontrivial=False)
 
 
+def rule_r6(ctx):
+    n = 0
+    for mn in ("onnx_ir._core", SYM):
+        for f in ctx.repo.module(mn).all_funcs:
+            if isinstance(f.node, ast.Lambda):
+                continue
+            a = f.node.args
+            maps = {p_.arg for p_ in a.posonlyargs + a.args + a.kwonlyargs if p_.annotation is not None
+                    and re.search(r"(Mapping|dict|Dict)\[str, *int\]", norm(p_.annotation))}
+            if not maps:
+                continue
+            n += 1
+
+            def drawn(e):
+                # e is <map>[k] / <map>.get(k[, d]) or a local bound to one
+                if isinstance(e, ast.Subscript) and isinstance(e.value, ast.Name) and e.value.id in maps:
+                    return True
+                if isinstance(e, ast.Call) and isinstance(e.func, ast.Attribute) and e.func.attr == "get" and isinstance(e.func.value, ast.Name) \
+                        and e.func.value.id in maps:
+                    return True
+                if isinstance(e, ast.Name):
+                    return any(isinstance(x, ast.Assign) and any(isinstance(t, ast.Name) and t.id == e.id for t in x.targets) and drawn(x.value)
+                               for x in own_nodes(f.node))
+                if isinstance(e, ast.NamedExpr):
+                    return drawn(e.value)
+                return False
+
+            bad = None
+            for x in own_nodes(f.node):
+                if isinstance(x, ast.BoolOp) and any(drawn(v) for v in x.values):
+                    bad = x
+                elif isinstance(x, (ast.If, ast.IfExp, ast.While)):
+                    t = x.test.operand if isinstance(x.test, ast.UnaryOp) and isinstance(x.test.op, ast.Not) else x.test
+                    if drawn(t):
+                        bad = x.test
+                elif isinstance(x, ast.comprehension) and any(drawn(c.operand if isinstance(c, ast.UnaryOp) else c) for c in x.ifs):
+                    bad = x.ifs[0]
+            ctx.check("R6", f"{f.local}: values of `{sorted(maps)[0]}` are tested by presence, not truthiness", bad is None, f, bad if bad is not None else f.node,
+                      f"`{norm(bad) if bad is not None else ''}` uses a bound integer as a truth value: a binding of 0 is treated as missing, so the "
+                      "symbol is not substituted and the evaluation returns a residual (or a wrong value) for empty dimensions",
+                      how="no and/or operand, if/while/comprehension condition that is a value drawn from the Mapping[str, int] parameter",
+                      construct="binding tested by truthiness")
+    ctx.require(n >= 2, f"only {n} functions with a Mapping[str, int] bindings parameter found")
+
+
 def run(ctx):
+    rule_r6(ctx)
     rule_r1(ctx)
     rule_r2_r3_r4(ctx)
     rule_r5(ctx)
